@@ -1,9 +1,11 @@
 (* Refinement of the operational model of a transaction (Model/Net.v: the propagation engine run on the
-   compiled dependency graph of a static program) to the denotational specification (Spec/Sodium.v):
-   for every program of the static combinational fragment whose instantaneous dependency graph is
-   acyclic, the engine - whatever the order of the queue and of the dependents lists - ends with every
-   stream node holding exactly `occ` and every cell node holding exactly `upd`; every update closure ran
-   at most once and only after all of its dependencies had settled. *)
+   compiled dependency graph of a program whose wiring is fixed during the transaction) to the
+   denotational specification (Spec/Sodium.v): for every program without switch_c whose instantaneous
+   dependency graph is acyclic, the engine - whatever the order of the queue and of the dependents
+   lists - ends with every stream node holding exactly `occ` and every cell node holding exactly `upd`;
+   every update closure ran at most once and only after all of its dependencies had settled.  Then the
+   commit, histories of transactions (switch_s re-wired between them), and the deferred queue of an
+   outermost close (defer, split, post). *)
 From Coq Require Import List ZArith Bool Arith Lia Permutation.
 Import ListNotations.
 From Sodium Require Import Engine EngineScript EngineSafe EngineFuel EngineLog EngineTop Sodium Net.
@@ -65,6 +67,7 @@ Section Static.
   Hypothesis Hfrag : in_fragment st = true.
   Hypothesis Hnd : NoDup (map fst (defs st)).
   Hypothesis Hrefs : refs_ok st = true.
+  Hypothesis Hsw : switch_targets_ok st = true.
 
   Lemma key_lt_nsize k d : alookup (defs st) k = Some d -> k < nsize st.
   Proof.
@@ -91,6 +94,21 @@ Section Static.
     apply (Hrefs (k, d) E).
   Qed.
 
+  Lemma def_switch k d : alookup (defs st) k = Some d -> switch_target_ok_def st d = true.
+  Proof.
+    intros E. apply alookup_in in E. unfold switch_targets_ok in Hsw. rewrite forallb_forall in Hsw.
+    apply (Hsw (k, d) E).
+  Qed.
+
+  (* the outer cell of a switch_s holds a reference to a stream *)
+  Lemma switch_target k c : alookup (defs st) k = Some (DSwitchS c) ->
+    exists m, cur st (F st) c = EV (VRef m) /\ is_stream_key st m = true.
+  Proof.
+    intros E. apply def_switch in E. cbn [switch_target_ok_def] in E.
+    destruct (cur st (F st) c) as [v|]; [|discriminate]. destruct v; try discriminate.
+    exists h. split; auto.
+  Qed.
+
   Lemma stream_key_def k : is_stream_key st k = true -> exists d, alookup (defs st) k = Some d /\ is_cell d = false.
   Proof.
     unfold is_stream_key. destruct (alookup (defs st) k) as [d|]; [|discriminate].
@@ -103,11 +121,20 @@ Section Static.
     intros H. exists d. split; auto.
   Qed.
 
-  Lemma ndeps_defined n a : In a (ndeps st n) -> exists d, alookup (defs st) a = Some d.
+  Lemma stream_key_lt k : is_stream_key st k = true -> k < nsize st.
+  Proof. intros H. apply stream_key_def in H as (d & E & _). eapply key_lt_nsize; eauto. Qed.
+  Lemma cell_key_lt k : is_cell_key st k = true -> k < nsize st.
+  Proof. intros H. apply cell_key_def in H as (d & E & _). eapply key_lt_nsize; eauto. Qed.
+
+  (* a dependency is a defined key, or the spark of a value() created in this transaction *)
+  Lemma ndeps_cases n a : In a (ndeps st n) ->
+    (exists d, alookup (defs st) a = Some d) \/
+    (exists c, alookup (defs st) n = Some (DValue c) /\ amem (fresh st) n = true /\ a = spark st n).
   Proof.
     unfold ndeps. destruct (alookup (defs st) n) as [dn|] eqn:En; [|intros []].
     pose proof (def_refs n dn En) as R. intros Hin.
-    assert (K : is_stream_key st a = true \/ is_cell_key st a = true).
+    assert (K : is_stream_key st a = true \/ is_cell_key st a = true \/
+                (exists c, dn = DValue c /\ amem (fresh st) n = true /\ a = spark st n)).
     { destruct dn; cbn [ddeps refs_ok_def] in *;
         repeat match goal with
                | H : _ && _ = true |- _ => apply andb_prop in H as [? ?]
@@ -116,25 +143,46 @@ Section Static.
                | H : In _ [_; _] |- _ => destruct H as [<-|[<-|[]]]
                end; auto.
       - (* once *) destruct (amem (Sodium.fired st) n); [destruct Hin | destruct Hin as [<-|[]]; auto].
+      - (* value *) destruct (amem (fresh st) n) eqn:Fr.
+        + destruct Hin as [<-|[<-|[]]]; auto. right. right. exists c. auto.
+        + destruct Hin as [<-|[]]; auto.
+      - (* switch_s *) destruct (switch_target n c En) as (m & Ec & Km). rewrite Ec in Hin.
+        destruct Hin as [<-|[<-|[]]]; auto.
       - (* sloop *) destruct (alookup (loops st) n); [destruct Hin as [<-|[]]; auto | destruct Hin].
       - (* route *) destruct (alookup (defs st) r) as [[]|]; try discriminate; try (destruct Hin; fail).
         destruct Hin as [<-|[]]; auto.
-      - (* lift *) rewrite forallb_forall in R. right. apply R; auto.
+      - (* lift *) rewrite forallb_forall in R. right. left. apply R; auto.
       - (* cloop *) destruct (alookup (loops st) n); [destruct Hin as [<-|[]]; auto | destruct Hin]. }
-    destruct K as [K|K]; [apply stream_key_def in K | apply cell_key_def in K]; destruct K as (d & E & _); exists d; exact E.
+    destruct K as [K|[K|(c & -> & Fr & ->)]].
+    - left. apply stream_key_def in K as (d & E & _). exists d; exact E.
+    - left. apply cell_key_def in K as (d & E & _). exists d; exact E.
+    - right. exists c. auto.
   Qed.
 
-  Lemma ndeps_range n a : In a (ndeps st n) -> a < nsize st.
-  Proof. intros H. destruct (ndeps_defined n a H) as [d E]. eapply key_lt_nsize; eauto. Qed.
+  Lemma ndeps_range n a : In a (ndeps st n) -> a < gsize st.
+  Proof.
+    intros H. unfold gsize. destruct (ndeps_cases n a H) as [[d E]|(c & E & _ & ->)].
+    - apply key_lt_nsize in E. lia.
+    - apply key_lt_nsize in E. unfold spark. lia.
+  Qed.
+
+  (* the dependencies that are definitions *)
+  Lemma ndeps_real n a : In a (ndeps st n) -> a < nsize st -> exists d, alookup (defs st) a = Some d.
+  Proof.
+    intros H Lt. destruct (ndeps_cases n a H) as [E|(c & _ & _ & ->)]; [exact E|]. unfold spark in Lt. lia.
+  Qed.
 
   Lemma ndeps_self_defined n : ndeps st n <> [] -> exists d, alookup (defs st) n = Some d.
   Proof. unfold ndeps. destruct (alookup (defs st) n) as [d|]; [eauto | intros H; contradiction]. Qed.
 
+  Lemma ndeps_ge n : nsize st <= n -> ndeps st n = [].
+  Proof. intros H. unfold ndeps. rewrite key_none_ge by exact H. reflexivity. Qed.
+
   (* ---------------------------------------------------------------- the compiled graph *)
-  Lemma compile_length : length (compile st) = nsize st.
+  Lemma compile_length : length (compile st) = gsize st.
   Proof. unfold compile. rewrite map_length, seq_length. reflexivity. Qed.
 
-  Lemma compile_get n : n < nsize st ->
+  Lemma compile_get n : n < gsize st ->
     get (compile st) n = {| deps := ndeps st n; dependents := ndependents st n;
                             visited := false; done := false; changed := false; fire := None |}.
   Proof.
@@ -147,19 +195,19 @@ Section Static.
 
   Lemma compile_deps n : deps (get (compile st) n) = ndeps st n.
   Proof.
-    destruct (lt_dec n (nsize st)) as [Hn|Hn]; [rewrite compile_get by auto; reflexivity|].
-    rewrite get_default by (rewrite compile_length; lia). unfold ndeps. rewrite key_none_ge by lia. reflexivity.
+    destruct (lt_dec n (gsize st)) as [Hn|Hn]; [rewrite compile_get by auto; reflexivity|].
+    rewrite get_default by (rewrite compile_length; lia). rewrite ndeps_ge by (unfold gsize in Hn; lia). reflexivity.
   Qed.
 
-  Lemma compile_dependents n : dependents (get (compile st) n) = if Nat.ltb n (nsize st) then ndependents st n else [].
+  Lemma compile_dependents n : dependents (get (compile st) n) = if Nat.ltb n (gsize st) then ndependents st n else [].
   Proof.
-    destruct (Nat.ltb_spec n (nsize st)) as [Hn|Hn]; [rewrite compile_get by auto; reflexivity|].
+    destruct (Nat.ltb_spec n (gsize st)) as [Hn|Hn]; [rewrite compile_get by auto; reflexivity|].
     rewrite get_default by (rewrite compile_length; lia). reflexivity.
   Qed.
 
   (* a graph for the program: these dependencies, every dependent registered, in any order *)
   Definition net_graph (gr : graph val) : Prop :=
-    wf gr /\ length gr = nsize st /\ forall n, deps (get gr n) = ndeps st n.
+    wf gr /\ length gr = gsize st /\ forall n, deps (get gr n) = ndeps st n.
 
   Lemma compile_net_graph : net_graph (compile st).
   Proof.
@@ -167,52 +215,60 @@ Section Static.
     split; [|split; [|split]].
     - intros n Hn. rewrite compile_length in Hn. rewrite compile_get by auto. repeat split.
     - intros n d. rewrite compile_deps, compile_length. apply ndeps_range.
-    - intros n m. rewrite compile_dependents, compile_length. destruct (Nat.ltb n (nsize st)); [|intros []].
+    - intros n m. rewrite compile_dependents, compile_length. destruct (Nat.ltb n (gsize st)); [|intros []].
       unfold ndependents. intros H. apply filter_In in H as [H _]. apply in_seq in H. lia.
     - intros n d. rewrite compile_deps. intros Hd. rewrite compile_dependents.
       pose proof (ndeps_range n d Hd) as Hdn. apply Nat.ltb_lt in Hdn. rewrite Hdn.
       unfold ndependents. apply filter_In. split.
       + apply in_seq. destruct (ndeps_self_defined n) as [dn En]; [intros Z; rewrite Z in Hd; destruct Hd|].
-        apply key_lt_nsize in En. lia.
+        apply key_lt_nsize in En. unfold gsize. lia.
       + apply existsb_exists. exists d. split; auto. apply Nat.eqb_refl.
   Qed.
+
+  (* ---------------------------------------------------------------- the sources *)
+  Lemma src_val_ge inj n : gsize st <= n -> src_val st inj n = None.
+  Proof.
+    intros H. unfold gsize in H. unfold src_val. rewrite key_none_ge by lia.
+    rewrite (key_none_ge (n - nsize st)) by lia. destruct (Nat.leb (nsize st) n); reflexivity.
+  Qed.
+
+  Lemma src_val_nodeps inj n v : src_val st inj n = Some v -> ndeps st n = [].
+  Proof.
+    unfold src_val, ndeps. destruct (alookup (defs st) n) as [d|]; [|reflexivity].
+    destruct d; try discriminate; reflexivity.
+  Qed.
+
+  Lemma net_sources_in inj n v : In (n, v) (net_sources st inj) <-> n < gsize st /\ src_val st inj n = Some v.
+  Proof.
+    unfold net_sources. rewrite in_flat_map. split.
+    - intros (m & Hm & H). apply in_seq in Hm. destruct (src_val st inj m) as [w|] eqn:E; [|contradiction].
+      destruct H as [H|[]]. injection H as -> ->. split; [lia|exact E].
+    - intros [Hn E]. exists n. split; [apply in_seq; lia|]. rewrite E. left. reflexivity.
+  Qed.
+
+  Lemma net_sources_nodup inj : NoDup (map fst (net_sources st inj)).
+  Proof.
+    unfold net_sources. generalize (seq_NoDup (gsize st) 0). generalize (seq 0 (gsize st)) as l.
+    induction l as [|m t IH]; intros ND; [constructor|].
+    apply NoDup_cons_iff in ND as [Nin ND]. cbn [flat_map]. rewrite map_app.
+    assert (Nm : ~ In m (map fst (flat_map (fun n => match src_val st inj n with Some v => [(n, v)] | None => [] end) t))).
+    { intros H. apply in_map_iff in H as ([m' v] & E & H). cbn [fst] in E. subst m'.
+      apply in_flat_map in H as (m2 & Hin & H). destruct (src_val st inj m2); [|contradiction].
+      destruct H as [H|[]]. injection H as -> _. contradiction. }
+    destruct (src_val st inj m); [|exact (IH ND)]. cbn [map fst app]. constructor; [exact Nm | exact (IH ND)].
+  Qed.
+
+  Lemma lookup_sources inj n : lookup (net_sources st inj) n = src_val st inj n.
+  Proof.
+    destruct (lookup (net_sources st inj) n) as [v|] eqn:E.
+    - apply lookup_some in E. apply net_sources_in in E as [_ E]. auto.
+    - destruct (src_val st inj n) as [v|] eqn:Es; auto.
+      assert (Hn : n < gsize st).
+      { destruct (lt_dec n (gsize st)); auto. rewrite src_val_ge in Es by lia. discriminate. }
+      rewrite (lookup_in _ _ _ (net_sources_nodup inj) (proj2 (net_sources_in inj n v) (conj Hn Es))) in E.
+      discriminate.
+  Qed.
 End Static.
-
-(* ------------------------------------------------------------------ the sources *)
-Lemma net_sources_in st inj n v : In (n, v) (net_sources st inj) ->
-  exists co, In (n, DSink co) (defs st) /\ coalesce co (injected inj n) = Some v.
-Proof.
-  unfold net_sources. intros H. apply in_flat_map in H as ([k d] & Hin & H). cbn [fst snd] in H.
-  destruct d; try contradiction. destruct (coalesce co (injected inj k)) as [w|] eqn:Ec; [|contradiction].
-  destruct H as [E|[]]. injection E as <- <-. exists co. split; auto.
-Qed.
-
-Lemma net_sources_in_conv st inj n v co :
-  In (n, DSink co) (defs st) -> coalesce co (injected inj n) = Some v -> In (n, v) (net_sources st inj).
-Proof.
-  intros Hin Ec. unfold net_sources. apply in_flat_map. exists (n, DSink co). split; auto.
-  cbn [fst snd]. rewrite Ec. left. reflexivity.
-Qed.
-
-Lemma net_sources_nodup st inj : NoDup (map fst (defs st)) -> NoDup (map fst (net_sources st inj)).
-Proof.
-  unfold net_sources. generalize (defs st) as l.
-  induction l as [|[k d] t IH]; intros ND; [constructor|].
-  cbn [map fst] in ND. apply NoDup_cons_iff in ND as [Nin ND].
-  cbn [flat_map fst snd]. rewrite map_app. specialize (IH ND).
-  assert (Nk : ~ In k (map fst (flat_map (fun kd : nat * def =>
-              match snd kd with
-              | DSink co => match coalesce co (injected inj (fst kd)) with Some v => [(fst kd, v)] | None => [] end
-              | _ => []
-              end) t))).
-  { intros H. apply in_map_iff in H as ([k' v] & E & H). cbn [fst] in E. subst k'.
-    apply in_flat_map in H as ([k2 d2] & Hin & H). cbn [fst snd] in H.
-    destruct d2; try contradiction. destruct (coalesce co (injected inj k2)); [|contradiction].
-    destruct H as [E|[]]. injection E as -> _. apply Nin. apply in_map_iff. exists (k, DSink co); auto. }
-  destruct d; try exact IH. destruct (coalesce co (injected inj k)); [|exact IH].
-  cbn [map fst app]. constructor; auto.
-Qed.
-
 (* ------------------------------------------------------------------ the fixpoint equation of denf *)
 Lemma denf_unfold {Val} (F : rule Val) (gr : graph Val) fs : deps_in_range gr -> ranked gr -> forall n,
   denf F (S (length gr)) gr fs n =
@@ -272,8 +328,16 @@ Qed.
 (* the two places where occ and upd call each other *)
 Lemma occ_updates st inj f n c : alookup (defs st) n = Some (DUpdates c) -> occ st inj (S f) n = upd st inj f c.
 Proof. intros E. cbn [occ]. unfold def_of. rewrite E. reflexivity. Qed.
+Lemma occ_value st inj f n c : alookup (defs st) n = Some (DValue c) ->
+  occ st inj (S f) n =
+  elet u <- upd st inj f c;
+  if amem (fresh st) n
+  then match u with Some v => EV (Some v) | None => elet v <- cur st (F st) c; EV (Some v) end
+  else EV u.
+Proof. intros E. cbn [occ]. unfold def_of. rewrite E. reflexivity. Qed.
 Lemma upd_hold st inj f n a : alookup (defs st) n = Some (DHold a) -> upd st inj (S f) n = occ st inj f a.
 Proof. intros E. cbn [upd]. unfold def_of. rewrite E. reflexivity. Qed.
+
 
 (* ------------------------------------------------------------------ the refinement *)
 Section Refine.
@@ -283,18 +347,18 @@ Section Refine.
   Hypothesis Hnd : NoDup (map fst (defs st)).
   Hypothesis Hrefs : refs_ok st = true.
   Hypothesis Hres : cells_resolved st = true.
+  Hypothesis Hsw : switch_targets_ok st = true.
   Variable gr : graph val.
   Hypothesis Hgr : net_graph st gr.
+  Hypothesis Hrk : ranked gr.
   Variable fs : list (nat * val).
   Hypothesis Hfs : Permutation fs (net_sources st inj).
+  (* a rank for the dependencies that are definitions (the recursion of occ / upd) *)
   Variable rank : nat -> nat.
-  Hypothesis rank_ok : forall n d, In d (ndeps st n) -> rank d < rank n.
+  Hypothesis rank_ok : forall n d, In d (ndeps st n) -> d < nsize st -> rank d < rank n.
 
   (* what the engine leaves in node n (EngineTop.txn_run) *)
   Definition dn (n : nat) : option val := denf (Frule st) (S (length gr)) gr fs n.
-
-  Lemma gr_ranked : ranked gr.
-  Proof. exists rank. intros n d. rewrite (proj2 (proj2 Hgr)). apply rank_ok. Qed.
 
   Lemma dn_eq n :
     dn n = match ndeps st n with
@@ -302,39 +366,35 @@ Section Refine.
            | ds => if existsb is_some (map dn ds) then Frule st n (map dn ds) else None
            end.
   Proof.
-    unfold dn. rewrite denf_unfold; [|apply Hgr | apply gr_ranked].
+    unfold dn. rewrite denf_unfold; [|apply Hgr | apply Hrk].
     rewrite (proj2 (proj2 Hgr)). reflexivity.
   Qed.
 
   Lemma fs_nodup : NoDup (map fst fs).
   Proof.
     eapply Permutation_NoDup; [apply Permutation_map; apply Permutation_sym; exact Hfs|].
-    apply net_sources_nodup; exact Hnd.
+    apply net_sources_nodup.
   Qed.
 
-  Lemma lookup_fs n :
-    lookup fs n = match alookup (defs st) n with
-                  | Some (DSink co) => coalesce co (injected inj n)
-                  | _ => None
-                  end.
-  Proof.
-    rewrite (lookup_perm fs (net_sources st inj) n fs_nodup Hfs).
-    destruct (lookup (net_sources st inj) n) as [v|] eqn:E.
-    - apply lookup_some in E. apply net_sources_in in E as (co & Hin & Ec).
-      rewrite (alookup_nodup _ _ _ Hnd Hin). auto.
-    - destruct (alookup (defs st) n) as [d|] eqn:En; auto. destruct d; auto.
-      destruct (coalesce co (injected inj n)) as [v|] eqn:Ec; auto.
-      apply alookup_in in En. pose proof (net_sources_in_conv st inj n v co En Ec) as Hin.
-      rewrite (lookup_in _ _ _ (net_sources_nodup st inj Hnd) Hin) in E. discriminate.
-  Qed.
+  Lemma lookup_fs n : lookup fs n = src_val st inj n.
+  Proof. rewrite (lookup_perm fs (net_sources st inj) n fs_nodup Hfs). apply lookup_sources. Qed.
 
   Lemma fs_sources : sources gr fs.
   Proof.
     split; [apply fs_nodup|]. intros n v Hin.
-    apply (Permutation_in _ Hfs) in Hin. apply net_sources_in in Hin as (co & Hin & _).
-    pose proof (alookup_nodup _ _ _ Hnd Hin) as En. split.
-    - rewrite (proj1 (proj2 Hgr)). eapply key_lt_nsize; eauto.
-    - rewrite (proj2 (proj2 Hgr)). unfold ndeps. rewrite En. reflexivity.
+    apply (Permutation_in _ Hfs) in Hin. apply net_sources_in in Hin as [Hn Es]. split.
+    - rewrite (proj1 (proj2 Hgr)). exact Hn.
+    - rewrite (proj2 (proj2 Hgr)). eapply src_val_nodeps; eauto.
+  Qed.
+
+  (* the spark of a value() created in this transaction fires the cell's current value *)
+  Lemma dn_spark n c : alookup (defs st) n = Some (DValue c) -> amem (fresh st) n = true ->
+    dn (spark st n) = Some (curv st c).
+  Proof.
+    intros En Fr. rewrite dn_eq. unfold spark. rewrite ndeps_ge by lia. rewrite lookup_fs.
+    unfold src_val. rewrite key_none_ge by lia.
+    replace (Nat.leb (nsize st) (nsize st + n)) with true by (symmetry; apply Nat.leb_le; lia).
+    replace (nsize st + n - nsize st) with n by lia. rewrite En, Fr. reflexivity.
   Qed.
 
   (* a resolved cell is sampled as its committed value *)
@@ -353,7 +413,9 @@ Section Refine.
 
   Local Ltac once_dep Dn n a :=
     let H := fresh "Rk" in
-    assert (H : rank a < rank n) by (apply rank_ok; rewrite Dn; cbn [In]; auto).
+    assert (H : rank a < rank n)
+      by (apply rank_ok; [rewrite Dn; cbn [In]; auto
+                         | first [apply (stream_key_lt st); assumption | apply (cell_key_lt st); assumption]]).
 
   (* the engine's fixpoint satisfies the recursive equations of occ / upd *)
   Lemma occ_upd_dn : forall f n d, alookup (defs st) n = Some d -> rank n < f ->
@@ -365,12 +427,14 @@ Section Refine.
     assert (IHc : forall a, is_cell_key st a = true -> rank a < rank n -> upd st inj f a = EV (dn a)).
     { intros a Ka Ra. apply cell_key_def in Ka as (da & Ea & Ca). apply (IH a da Ea); [lia | exact Ca]. }
     pose proof (def_refs st Hrefs n d En) as R. pose proof (def_frag st Hfrag n d En) as Fr.
-    pose proof (lookup_fs n) as Lk. rewrite En in Lk.
+    pose proof (lookup_fs n) as Lk. unfold src_val in Lk. rewrite En in Lk.
     pose proof (dn_eq n) as Dq.
     assert (Dn0 : ndeps st n = ddeps st n d) by (unfold ndeps; rewrite En; reflexivity).
     destruct d; cbn [in_frag_def] in Fr; try discriminate; cbn [refs_ok_def] in R; cbn [ddeps] in Dn0;
+      cbv beta iota in Lk;
       (split; intros Hc; cbn [is_cell] in Hc; try discriminate); clear Hc;
       try rewrite (occ_updates st inj f n _ En); try rewrite (upd_hold st inj f n _ En);
+      try rewrite (occ_value st inj f n _ En);
       cbn [occ upd]; unfold def_of; try rewrite En; cbn [ebind].
     - (* sink *) rewrite Dq, Dn0, Lk. reflexivity.
     - (* never *) rewrite Dq, Dn0, Lk. reflexivity.
@@ -378,8 +442,8 @@ Section Refine.
       rewrite Dq, Dn0. unfold Frule. rewrite En. cbn [map existsb nth]. destruct (dn s); reflexivity.
     - (* filter *) once_dep Dn0 n s. rewrite (IHs s R Rk). cbn [ebind].
       rewrite Dq, Dn0. unfold Frule. rewrite En. cbn [map existsb nth]. destruct (dn s); reflexivity.
-    - (* merge *) apply andb_prop in R as [Ra Rb]. once_dep Dn0 n a. assert (Rk' : rank b < rank n) by (apply rank_ok; rewrite Dn0; cbn [In]; auto).
-      rewrite (IHs a Ra Rk), (IHs b Rb Rk'). cbn [ebind].
+    - (* merge *) apply andb_prop in R as [Ra Rb]. once_dep Dn0 n a. once_dep Dn0 n b.
+      rewrite (IHs a Ra Rk), (IHs b Rb Rk0). cbn [ebind].
       rewrite Dq, Dn0. unfold Frule. rewrite En. cbn [map existsb nth]. destruct (dn a), (dn b); reflexivity.
     - (* snapshot *) apply andb_prop in R as [Ra Rb]. once_dep Dn0 n s. rewrite (IHs s Ra Rk). cbn [ebind].
       rewrite Dq, Dn0. unfold Frule. rewrite En. cbn [map existsb nth]. destruct (dn s); [|reflexivity].
@@ -393,10 +457,24 @@ Section Refine.
         rewrite Dq, Dn0. unfold Frule. rewrite En. cbn [map existsb nth]. destruct (dn s); reflexivity.
     - (* updates *) once_dep Dn0 n c. rewrite (IHc c R Rk).
       rewrite Dq, Dn0. unfold Frule. rewrite En. cbn [map existsb nth]. destruct (dn c); reflexivity.
+    - (* value: the updates, or_else (only in the transaction that created it) the spark *)
+      destruct (amem (fresh st) n) eqn:Fs.
+      + once_dep Dn0 n c. rewrite (IHc c R Rk). cbn [ebind].
+        rewrite Dq, Dn0. unfold Frule. rewrite En. cbn [map existsb nth].
+        rewrite (dn_spark n c En Fs). destruct (dn c); [reflexivity|].
+        rewrite (cur_cell_key c R). reflexivity.
+      + once_dep Dn0 n c. rewrite (IHc c R Rk). cbn [ebind].
+        rewrite Dq, Dn0. unfold Frule. rewrite En. cbn [map existsb nth]. destruct (dn c); reflexivity.
+    - (* switch_s: the stream held at the start of the transaction *)
+      destruct (switch_target st Hsw n c En) as (m & Ec & Km). rewrite Ec in Dn0 |- *. cbn [ebind].
+      once_dep Dn0 n m. rewrite (IHs m Km Rk).
+      rewrite Dq, Dn0. unfold Frule. rewrite En. cbn [map existsb nth]. destruct (dn m), (dn c); reflexivity.
     - (* sloop *) destruct (alookup (loops st) n) as [t|] eqn:Lp.
       + once_dep Dn0 n t. rewrite (IHs t R Rk).
         rewrite Dq, Dn0. unfold Frule. rewrite En. cbn [map existsb nth]. destruct (dn t); reflexivity.
       + rewrite Dq, Dn0, Lk. reflexivity.
+    - (* defer: a source of its own deferred transaction *) rewrite Dq, Dn0, Lk. reflexivity.
+    - (* split *) rewrite Dq, Dn0, Lk. reflexivity.
     - (* router *) once_dep Dn0 n s. rewrite (IHs s R Rk).
       rewrite Dq, Dn0. unfold Frule. rewrite En. cbn [map existsb nth]. destruct (dn s); reflexivity.
     - (* route *) destruct (alookup (defs st) r) as [dr|] eqn:Er; [|discriminate].
@@ -410,7 +488,8 @@ Section Refine.
       rewrite Dq, Dn0. unfold Frule. rewrite En. cbn [map existsb nth]. destruct (dn c); reflexivity.
     - (* lift *)
       assert (Hcs : forall c, In c cs -> upd st inj f c = EV (dn c)).
-      { intros c Hin. rewrite forallb_forall in R. apply IHc; [apply R; auto|]. apply rank_ok. rewrite Dn0. exact Hin. }
+      { intros c Hin. rewrite forallb_forall in R. apply IHc; [apply R; auto|].
+        apply rank_ok; [rewrite Dn0; exact Hin | apply (cell_key_lt st); apply R; auto]. }
       rewrite (emap_ev (upd st inj f) dn cs Hcs). cbn [ebind].
       rewrite Dq, Dn0. cbv zeta.
       destruct cs as [|c0 cs'].
@@ -433,10 +512,12 @@ End Refine.
    dependencies fired, and never before one of its dependencies *)
 Definition updates_once_after_deps (st : state) (fires : list (option val)) (lg : list nat) : Prop :=
   NoDup lg /\
-  (forall n, In n lg <-> (n < nsize st /\ ndeps st n <> [] /\
+  (forall n, In n lg <-> (n < gsize st /\ ndeps st n <> [] /\
                           exists d, In d (ndeps st n) /\ fire_of fires d <> None)) /\
   (forall l1 n l2, lg = l1 ++ n :: l2 -> forall d, In d (ndeps st n) -> ~ In d l2).
 
+(* no instantaneous dependency cycle.  For switch_s this includes: the update of the outer cell does not
+   depend on the switch's own output within the same transaction (see Model/Net.v) *)
 Definition acyclic (st : state) : Prop :=
   exists rank : nat -> nat, forall n d, In d (ndeps st n) -> rank d < rank n.
 
@@ -446,44 +527,63 @@ Proof.
   rewrite map_nth, seq_nth by exact H. reflexivity.
 Qed.
 
+(* the dependencies among definitions only (without the sparks): the recursion of occ / upd.  A proof
+   device to bound the fuel the specification needs by the number of definitions. *)
+Definition real_graph (st : state) : graph val :=
+  map (fun n => mknode (filter (fun d => Nat.ltb d (nsize st)) (ndeps st n))) (seq 0 (nsize st)).
+
+Lemma real_graph_deps st n :
+  deps (get (real_graph st) n) = filter (fun d => Nat.ltb d (nsize st)) (ndeps st n).
+Proof.
+  destruct (lt_dec n (nsize st)) as [Hn|Hn].
+  - unfold get, real_graph. rewrite nth_map_seq by exact Hn. reflexivity.
+  - rewrite get_default by (unfold real_graph; rewrite map_length, seq_length; lia).
+    rewrite ndeps_ge by lia. reflexivity.
+Qed.
+
 Theorem net_refines st inj gr fs :
   in_fragment st = true -> NoDup (map fst (defs st)) -> refs_ok st = true -> cells_resolved st = true ->
-  acyclic st -> net_graph st gr -> Permutation fs (net_sources st inj) ->
+  switch_targets_ok st = true -> acyclic st -> net_graph st gr -> Permutation fs (net_sources st inj) ->
   exists fires lg,
     net_run st gr fs = Some (fires, lg) /\
-    length fires = nsize st /\
+    length fires = gsize st /\
     (forall s d, alookup (defs st) s = Some d -> is_cell d = false ->
                  occ st inj (F st) s = EV (fire_of fires s)) /\
     (forall c d, alookup (defs st) c = Some d -> is_cell d = true ->
                  upd st inj (F st) c = EV (fire_of fires c)) /\
     updates_once_after_deps st fires lg.
 Proof.
-  intros Hfrag Hnd Hrefs Hres [rank RK] Hgr Hfs.
+  intros Hfrag Hnd Hrefs Hres Hsw [rank RK] Hgr Hfs.
   pose proof Hgr as (Hwf & HL & HD).
   assert (RKg : forall n d, In d (deps (get gr n)) -> rank d < rank n) by (intros n d; rewrite HD; apply RK).
   assert (Rg : ranked gr) by (exists rank; exact RKg).
   destruct (ranked_bounded gr Rg (proj1 (proj2 Hwf))) as (rb & RKb & RBb).
-  pose proof (fs_sources st inj Hnd gr Hgr fs Hfs) as Hsrc.
+  pose proof (fs_sources st inj gr Hgr fs Hfs) as Hsrc.
   destruct (txn_run (Frule st) gr fs rb Hwf RKb RBb Hsrc) as (s' & E & _ & Fi & NDl & Iff & St).
   (* a rank below the number of definitions: the fuel of the specification is enough *)
-  destruct (height_bound gr (map fst (defs st)) rank RKg) as (h & Hh & Hb).
-  { intros n d _ Hd. rewrite HD in Hd. destruct (ndeps_defined st Hrefs n d Hd) as [dd Ed].
+  destruct (height_bound (real_graph st) (map fst (defs st)) rank) as (h & Hh & Hb).
+  { intros n d. rewrite real_graph_deps. intros Hd. apply filter_In in Hd as [Hd _]. apply RK; exact Hd. }
+  { intros n d _. rewrite real_graph_deps. intros Hd. apply filter_In in Hd as [Hd Lt]. apply Nat.ltb_lt in Lt.
+    destruct (ndeps_real st Hrefs Hsw n d Hd Lt) as [dd Ed].
     apply alookup_in in Ed. apply in_map_iff. exists (d, dd); auto. }
-  assert (Hh' : forall n d, In d (ndeps st n) -> h d < h n) by (intros n d; rewrite <- HD; apply Hh).
+  assert (Hh' : forall n d, In d (ndeps st n) -> d < nsize st -> h d < h n).
+  { intros n d Hd Lt. apply Hh. rewrite real_graph_deps. apply filter_In. split; [exact Hd|]. apply Nat.ltb_lt; exact Lt. }
   assert (HF : forall n d, alookup (defs st) n = Some d -> h n < F st).
   { intros n d En. apply alookup_in in En.
     assert (In n (map fst (defs st))) by (apply in_map_iff; exists (n, d); auto).
     pose proof (Hb n H). rewrite map_length in H0. unfold F. lia. }
-  assert (Fo : forall n, n < nsize st -> fire_of (map fire (g s')) n = dn st gr fs n).
+  assert (Fo : forall n, n < gsize st -> fire_of (map fire (g s')) n = dn st gr fs n).
   { intros n Hn. unfold fire_of, dn. rewrite Fi. rewrite <- HL in Hn. apply nth_map_seq; exact Hn. }
+  assert (Klt : forall n d, alookup (defs st) n = Some d -> n < gsize st).
+  { intros n d En. apply key_lt_nsize in En. unfold gsize. lia. }
   exists (map fire (g s')), (rev (log s')).
   split; [|split; [|split; [|split]]].
   - unfold net_run. unfold init_st, fire_all in E. rewrite E. reflexivity.
   - rewrite Fi, map_length, seq_length. exact HL.
-  - intros s d Es Cs. rewrite Fo by (eapply key_lt_nsize; eauto).
-    apply (occ_upd_dn st inj Hfrag Hnd Hrefs Hres gr Hgr fs Hfs h Hh' (F st) s d Es (HF s d Es)); exact Cs.
-  - intros c d Ec Cc. rewrite Fo by (eapply key_lt_nsize; eauto).
-    apply (occ_upd_dn st inj Hfrag Hnd Hrefs Hres gr Hgr fs Hfs h Hh' (F st) c d Ec (HF c d Ec)); exact Cc.
+  - intros s d Es Cs. rewrite Fo by (eapply Klt; eauto).
+    apply (occ_upd_dn st inj Hfrag Hrefs Hres Hsw gr Hgr Rg fs Hfs h Hh' (F st) s d Es (HF s d Es)); exact Cs.
+  - intros c d Ec Cc. rewrite Fo by (eapply Klt; eauto).
+    apply (occ_upd_dn st inj Hfrag Hrefs Hres Hsw gr Hgr Rg fs Hfs h Hh' (F st) c d Ec (HF c d Ec)); exact Cc.
   - split; [exact NDl|]. split.
     + intros n. rewrite Iff. unfold Dof. rewrite HD.
       split; intros (Hn & NE & d & Hd & Nd).
@@ -495,38 +595,38 @@ Proof.
 Qed.
 Print Assumptions net_refines.
 
-(* the same for the graph built by `compile` and the sends in the order of the definitions *)
+(* the same for the graph built by `compile` and the sources queued in node order *)
 Corollary net_txn_refines st inj :
   in_fragment st = true -> NoDup (map fst (defs st)) -> refs_ok st = true -> cells_resolved st = true ->
-  acyclic st ->
+  switch_targets_ok st = true -> acyclic st ->
   exists fires lg,
     net_txn st inj = Some (fires, lg) /\
-    length fires = nsize st /\
+    length fires = gsize st /\
     (forall s d, alookup (defs st) s = Some d -> is_cell d = false ->
                  occ st inj (F st) s = EV (fire_of fires s)) /\
     (forall c d, alookup (defs st) c = Some d -> is_cell d = true ->
                  upd st inj (F st) c = EV (fire_of fires c)) /\
     updates_once_after_deps st fires lg.
 Proof.
-  intros Hfrag Hnd Hrefs Hres Hac. unfold net_txn.
+  intros Hfrag Hnd Hrefs Hres Hsw Hac. unfold net_txn.
   apply net_refines; auto. apply compile_net_graph; auto.
 Qed.
 Print Assumptions net_txn_refines.
 
 (* glitch freedom / order independence: any two graphs for the program (any registration order of the
-   dependents) and any two queue orders of the sends end with the same firings *)
+   dependents) and any two queue orders of the sources end with the same firings *)
 Corollary net_order_independent st inj gr1 fs1 gr2 fs2 :
   in_fragment st = true -> NoDup (map fst (defs st)) -> refs_ok st = true -> cells_resolved st = true ->
-  acyclic st ->
+  switch_targets_ok st = true -> acyclic st ->
   net_graph st gr1 -> Permutation fs1 (net_sources st inj) ->
   net_graph st gr2 -> Permutation fs2 (net_sources st inj) ->
   exists fires1 lg1 fires2 lg2,
     net_run st gr1 fs1 = Some (fires1, lg1) /\ net_run st gr2 fs2 = Some (fires2, lg2) /\
     forall n d, alookup (defs st) n = Some d -> fire_of fires1 n = fire_of fires2 n.
 Proof.
-  intros Hfrag Hnd Hrefs Hres Hac G1 P1 G2 P2.
-  destruct (net_refines st inj gr1 fs1 Hfrag Hnd Hrefs Hres Hac G1 P1) as (f1 & l1 & E1 & _ & O1 & U1 & _).
-  destruct (net_refines st inj gr2 fs2 Hfrag Hnd Hrefs Hres Hac G2 P2) as (f2 & l2 & E2 & _ & O2 & U2 & _).
+  intros Hfrag Hnd Hrefs Hres Hsw Hac G1 P1 G2 P2.
+  destruct (net_refines st inj gr1 fs1 Hfrag Hnd Hrefs Hres Hsw Hac G1 P1) as (f1 & l1 & E1 & _ & O1 & U1 & _).
+  destruct (net_refines st inj gr2 fs2 Hfrag Hnd Hrefs Hres Hsw Hac G2 P2) as (f2 & l2 & E2 & _ & O2 & U2 & _).
   exists f1, l1, f2, l2. split; [exact E1|]. split; [exact E2|].
   intros n d En. destruct (is_cell d) eqn:Cd.
   - pose proof (U1 n d En Cd) as A. rewrite (U2 n d En Cd) in A. injection A as A. auto.
@@ -539,16 +639,18 @@ Lemma cur_cvals st c v : alookup (cvals st) c = Some v -> cur st (F st) c = EV v
 Proof. intros E. unfold F. cbn [cur]. rewrite E. reflexivity. Qed.
 
 (* what the specification does when the transaction closes = the listener calls read off the engine's
-   firings + the commit of the fired cell updates and once flags *)
+   firings + the commit of the fired cell updates and once flags + the work posted by the listeners of
+   defer and split *)
 Theorem close_txn_refines st inj posts fires lg :
   in_fragment st = true -> NoDup (map fst (defs st)) -> refs_ok st = true -> cells_resolved st = true ->
-  listeners_ok st = true -> lazies_val st = true -> acyclic st ->
+  switch_targets_ok st = true -> listeners_ok st = true -> lazies_val st = true -> acyclic st ->
   net_txn st inj = Some (fires, lg) ->
   close_txn st inj posts =
-  EV (mkRes (net_commit st fires) (net_calls st fires) (map (fun p => DPost (fst p) (snd p)) posts)).
+  EV (mkRes (net_commit st fires) (net_calls st fires)
+            (net_deferred st fires ++ map (fun p => DPost (fst p) (snd p)) posts)).
 Proof.
-  intros Hfrag Hnd Hrefs Hres Hls Hlz Hac E.
-  destruct (net_txn_refines st inj Hfrag Hnd Hrefs Hres Hac) as (fires' & lg' & E' & _ & Ho & Hu & _).
+  intros Hfrag Hnd Hrefs Hres Hsw Hls Hlz Hac E.
+  destruct (net_txn_refines st inj Hfrag Hnd Hrefs Hres Hsw Hac) as (fires' & lg' & E' & _ & Ho & Hu & _).
   rewrite E in E'. injection E' as <- <-.
   unfold close_txn.
   (* listeners *)
@@ -586,33 +688,47 @@ Proof.
   2:{ intros [k d] Hin. cbn [fst snd]. destruct d; try reflexivity.
       pose proof (alookup_nodup _ _ _ Hnd Hin) as Ek. rewrite (Ho k _ Ek eq_refl). reflexivity. }
   cbn [ebind].
-  (* no defer / split in the fragment *)
-  rewrite (emap_ev _ (fun _ : nat * def => @nil ditem) (rev (defs st))).
+  (* defer / split: the argument's firing *)
+  rewrite (emap_ev _ (fun kd : nat * def =>
+                        match snd kd with
+                        | DDefer a => match fire_of fires a with Some v => [DEvent (fst kd) v] | None => [] end
+                        | DSplit a => match fire_of fires a with
+                                      | Some (VList l) => map (DEvent (fst kd)) l
+                                      | Some v => [DEvent (fst kd) v]
+                                      | None => []
+                                      end
+                        | _ => []
+                        end) (rev (defs st))).
   2:{ intros [k d] Hin. cbn [fst snd]. apply in_rev in Hin.
-      unfold in_fragment in Hfrag. rewrite forallb_forall in Hfrag. specialize (Hfrag (k, d) Hin). cbn [snd] in Hfrag.
-      destruct d; try reflexivity; discriminate. }
-  cbn [ebind]. rewrite (concat_map_nil (fun _ : nat * def => @nil ditem)) by reflexivity.
-  reflexivity.
+      pose proof (alookup_nodup _ _ _ Hnd Hin) as Ek. pose proof (def_refs st Hrefs k d Ek) as R.
+      destruct d; try reflexivity; cbn [refs_ok_def] in R;
+        apply stream_key_def in R as (da & Ea & Ca); rewrite (Ho s da Ea Ca); reflexivity. }
+  cbn [ebind]. reflexivity.
 Qed.
 Print Assumptions close_txn_refines.
 
 Corollary listeners_refine st inj fires lg r :
   in_fragment st = true -> NoDup (map fst (defs st)) -> refs_ok st = true -> cells_resolved st = true ->
-  listeners_ok st = true -> lazies_val st = true -> acyclic st ->
+  switch_targets_ok st = true -> listeners_ok st = true -> lazies_val st = true -> acyclic st ->
   net_txn st inj = Some (fires, lg) -> close_txn st inj [] = EV r ->
-  r_obs r = net_calls st fires /\ r_state r = net_commit st fires /\ r_deferred r = [].
+  r_obs r = net_calls st fires /\ r_state r = net_commit st fires /\ r_deferred r = net_deferred st fires.
 Proof.
-  intros Hfrag Hnd Hrefs Hres Hls Hlz Hac E C.
-  rewrite (close_txn_refines st inj [] fires lg Hfrag Hnd Hrefs Hres Hls Hlz Hac E) in C.
-  injection C as <-. auto.
+  intros Hfrag Hnd Hrefs Hres Hsw Hls Hlz Hac E C.
+  rewrite (close_txn_refines st inj [] fires lg Hfrag Hnd Hrefs Hres Hsw Hls Hlz Hac E) in C.
+  injection C as <-. cbn [r_obs r_state r_deferred map]. rewrite app_nil_r. auto.
 Qed.
 Print Assumptions listeners_refine.
 
-(* ------------------------------------------------------------------ histories *)
-(* everything the theorems above ask of a state; it holds again after the commit *)
+(* ------------------------------------------------------------------ the invariants *)
+(* the part of the hypotheses that does not depend on the current wiring; it holds again after a commit *)
 Definition static_ok (st : state) : Prop :=
   in_fragment st = true /\ NoDup (map fst (defs st)) /\ refs_ok st = true /\ cells_resolved st = true /\
-  listeners_ok st = true /\ lazies_val st = true /\ acyclic st.
+  listeners_ok st = true /\ lazies_val st = true.
+
+(* the part that depends on the values the outer cells of the switches hold: they refer to streams, and
+   the graph wired accordingly is acyclic.  A commit that re-wires a switch can break either, so the
+   history theorems assume it of every state in which a transaction is run. *)
+Definition wired_ok (st : state) : Prop := switch_targets_ok st = true /\ acyclic st.
 
 Lemma concat_map_singleton {A B} (f : A -> list B) (h : A -> B) l :
   (forall x, In x l -> f x = [h x]) -> concat (map f l) = map h l.
@@ -632,133 +748,507 @@ Qed.
 Lemma amem_app l1 l2 k : amem (l1 ++ l2) k = amem l1 k || amem l2 k.
 Proof. unfold amem. apply existsb_app. Qed.
 
-Lemma ndeps_commit_incl st fires n d : In d (ndeps (net_commit st fires) n) -> In d (ndeps st n).
-Proof.
-  unfold ndeps. change (defs (net_commit st fires)) with (defs st).
-  destruct (alookup (defs st) n) as [dn|]; [|auto].
-  destruct dn; cbn [ddeps]; auto.
-  change (Sodium.fired (net_commit st fires))
-    with (concat (map (fun kd : nat * def =>
-                   match snd kd with
-                   | DOnce _ => match fire_of fires (fst kd) with Some _ => [fst kd] | None => [] end
-                   | _ => []
-                   end) (defs st)) ++ Sodium.fired st).
-  rewrite amem_app. destruct (amem (Sodium.fired st) n); [rewrite orb_true_r; auto|].
-  destruct (amem _ n); cbn [orb]; [intros []|auto].
-Qed.
-
 Lemma static_ok_commit st fires : static_ok st -> static_ok (net_commit st fires).
 Proof.
-  intros (Hfrag & Hnd & Hrefs & Hres & Hls & Hlz & rank & RK).
+  intros (Hfrag & Hnd & Hrefs & Hres & Hls & Hlz).
   split; [exact Hfrag|]. split; [exact Hnd|]. split; [exact Hrefs|].
-  split; [|split; [exact Hls|split; [exact Hlz|]]].
-  - unfold cells_resolved. apply forallb_forall. intros [k d] Hin. cbn [fst snd].
-    change (defs (net_commit st fires)) with (defs st) in Hin.
-    destruct (is_cell d) eqn:Cd; [|reflexivity]. cbn [negb orb].
-    change (cvals (net_commit st fires))
+  split; [|split; [exact Hls|exact Hlz]].
+  unfold cells_resolved. apply forallb_forall. intros [k d] Hin. cbn [fst snd].
+  change (defs (net_commit st fires)) with (defs st) in Hin.
+  destruct (is_cell d) eqn:Cd; [|reflexivity]. cbn [negb orb].
+  change (cvals (net_commit st fires))
+    with (concat (map (fun kd : nat * def =>
+                 match fire_of fires (fst kd) with
+                 | Some v => [(fst kd, v)]
+                 | None => match alookup (cvals st) (fst kd) with
+                           | Some v => [(fst kd, v)]
+                           | None => []
+                           end
+                 end) (filter (fun kd => is_cell (snd kd)) (defs st)))).
+  rewrite (concat_map_singleton _ (fun kd : nat * def =>
+             (fst kd, match fire_of fires (fst kd) with
+                      | Some v => v
+                      | None => match alookup (cvals st) (fst kd) with Some v => v | None => VUnit end
+                      end))).
+  2:{ intros [k' d'] Hin'. cbn [fst snd]. apply filter_In in Hin' as [Hin' Cd']. cbn [snd] in Cd'.
+      destruct (fire_of fires k'); [reflexivity|].
+      unfold cells_resolved in Hres. rewrite forallb_forall in Hres. specialize (Hres (k', d') Hin').
+      cbn [fst snd] in Hres. rewrite Cd' in Hres. cbn [negb orb] in Hres.
+      destruct (alookup (cvals st) k'); [reflexivity|discriminate]. }
+  destruct (alookup_map_some (filter (fun kd => is_cell (snd kd)) (defs st))
+              (fun kd : nat * def => match fire_of fires (fst kd) with
+                      | Some v => v
+                      | None => match alookup (cvals st) (fst kd) with Some v => v | None => VUnit end
+                      end) k) as [v Ev].
+  { apply in_map_iff. exists (k, d). split; auto. apply filter_In. split; auto. }
+  rewrite Ev. reflexivity.
+Qed.
+
+(* programs without switch_s: the wiring never changes (once nodes and value sparks only drop
+   dependencies), so the wiring invariant is preserved by every commit *)
+Definition no_switch (st : state) : bool :=
+  forallb (fun kd : nat * def => match snd kd with DSwitchS _ => false | _ => true end) (defs st).
+
+Lemma ndeps_commit_incl st fires n d : no_switch st = true ->
+  In d (ndeps (net_commit st fires) n) -> In d (ndeps st n).
+Proof.
+  intros Hns. unfold ndeps. change (defs (net_commit st fires)) with (defs st).
+  destruct (alookup (defs st) n) as [dn|] eqn:En; [|auto].
+  destruct dn; cbn [ddeps]; auto.
+  - (* once *)
+    change (Sodium.fired (net_commit st fires))
       with (concat (map (fun kd : nat * def =>
-                   match fire_of fires (fst kd) with
-                   | Some v => [(fst kd, v)]
-                   | None => match alookup (cvals st) (fst kd) with
-                             | Some v => [(fst kd, v)]
-                             | None => []
-                             end
-                   end) (filter (fun kd => is_cell (snd kd)) (defs st)))).
-    rewrite (concat_map_singleton _ (fun kd : nat * def =>
-               (fst kd, match fire_of fires (fst kd) with
-                        | Some v => v
-                        | None => match alookup (cvals st) (fst kd) with Some v => v | None => VUnit end
-                        end))).
-    2:{ intros [k' d'] Hin'. cbn [fst snd]. apply filter_In in Hin' as [Hin' Cd']. cbn [snd] in Cd'.
-        destruct (fire_of fires k'); [reflexivity|].
-        unfold cells_resolved in Hres. rewrite forallb_forall in Hres. specialize (Hres (k', d') Hin').
-        cbn [fst snd] in Hres. rewrite Cd' in Hres. cbn [negb orb] in Hres.
-        destruct (alookup (cvals st) k'); [reflexivity|discriminate]. }
-    destruct (alookup_map_some (filter (fun kd => is_cell (snd kd)) (defs st))
-                (fun kd : nat * def => match fire_of fires (fst kd) with
-                        | Some v => v
-                        | None => match alookup (cvals st) (fst kd) with Some v => v | None => VUnit end
-                        end) k) as [v Ev].
-    { apply in_map_iff. exists (k, d). split; auto. apply filter_In. split; auto. }
-    rewrite Ev. reflexivity.
-  - exists rank. intros n d Hd. apply RK. eapply ndeps_commit_incl; eauto.
+                     match snd kd with
+                     | DOnce _ => match fire_of fires (fst kd) with Some _ => [fst kd] | None => [] end
+                     | _ => []
+                     end) (defs st)) ++ Sodium.fired st).
+    rewrite amem_app. destruct (amem (Sodium.fired st) n); [rewrite orb_true_r; auto|].
+    destruct (amem _ n); cbn [orb]; [intros []|auto].
+  - (* value: not fresh any more *)
+    change (fresh (net_commit st fires)) with (@nil nat). cbn [amem existsb].
+    intros [<-|[]]. destruct (amem (fresh st) n); left; reflexivity.
+  - (* switch_s *)
+    apply alookup_in in En. unfold no_switch in Hns. rewrite forallb_forall in Hns.
+    specialize (Hns _ En). discriminate.
+Qed.
+
+Lemma no_switch_targets st : no_switch st = true -> switch_targets_ok st = true.
+Proof.
+  unfold no_switch, switch_targets_ok. rewrite !forallb_forall. intros H kd Hin. specialize (H kd Hin).
+  destruct (snd kd); try reflexivity. discriminate.
+Qed.
+
+Lemma wired_ok_commit_no_switch st fires : no_switch st = true -> wired_ok st -> wired_ok (net_commit st fires).
+Proof.
+  intros Hns [_ [rank RK]]. split; [apply no_switch_targets; exact Hns|].
+  exists rank. intros n d Hd. apply RK. eapply ndeps_commit_incl; eauto.
+Qed.
+
+(* a checkable witness of acyclicity *)
+Definition rank_okb (st : state) (rank : nat -> nat) : bool :=
+  forallb (fun kd : nat * def => forallb (fun d => Nat.ltb (rank d) (rank (fst kd))) (ndeps st (fst kd))) (defs st).
+
+Lemma rank_okb_acyclic st rank : rank_okb st rank = true -> acyclic st.
+Proof.
+  intros H. exists rank. intros n d Hd. unfold rank_okb in H. rewrite forallb_forall in H.
+  destruct (ndeps_self_defined st n) as [dd En]; [intros Z; rewrite Z in Hd; destruct Hd|].
+  apply alookup_in in En. specialize (H _ En). cbn [fst] in H. rewrite forallb_forall in H.
+  apply Nat.ltb_lt. apply H. exact Hd.
+Qed.
+
+Definition wired_okb (rank : nat -> nat) (st : state) : bool := switch_targets_ok st && rank_okb st rank.
+Lemma wired_okb_ok rank st : wired_okb rank st = true -> wired_ok st.
+Proof. intros H. apply andb_prop in H as [A B]. split; [exact A | eapply rank_okb_acyclic; eauto]. Qed.
+
+(* ------------------------------------------------------------------ histories *)
+(* W holds of every state in which a transaction of the history is run *)
+Fixpoint history_all (W : state -> Prop) (st : state) (txns : list (list (nat * val))) : Prop :=
+  match txns with
+  | [] => True
+  | inj :: rest =>
+    W st /\ match net_txn st inj with
+            | Some (fires, _) => history_all W (net_commit st fires) rest
+            | None => True
+            end
+  end.
+Definition history_ok : state -> list (list (nat * val)) -> Prop := history_all wired_ok.
+
+Lemma history_all_impl (W W' : state -> Prop) : (forall st, W st -> W' st) ->
+  forall txns st, history_all W st txns -> history_all W' st txns.
+Proof.
+  intros Imp. induction txns as [|inj rest IH]; intros st H; [exact Logic.I|].
+  cbn [history_all] in *. destruct H as [Hw H]. split; [apply Imp; exact Hw|].
+  destruct (net_txn st inj) as [[fires lg]|]; [apply IH; exact H | exact Logic.I].
+Qed.
+
+(* an invariant of the commits is enough *)
+Lemma history_all_inv (W P : state -> Prop) :
+  (forall st, P st -> W st) ->
+  (forall st inj fires lg, P st -> net_txn st inj = Some (fires, lg) -> P (net_commit st fires)) ->
+  forall txns st, P st -> history_all W st txns.
+Proof.
+  intros PW Pc. induction txns as [|inj rest IH]; intros st Hp; [exact Logic.I|].
+  cbn [history_all]. split; [apply PW; exact Hp|].
+  destruct (net_txn st inj) as [[fires lg]|] eqn:E; [|exact Logic.I]. apply IH. eapply Pc; eauto.
 Qed.
 
 (* a sequence of transactions, each a set of sends: the listener calls of the operational model (engine
-   run + commit) are, transaction by transaction, those of the specification *)
-Theorem net_history_refines : forall txns st, static_ok st ->
+   run + commit, the switches re-wired by the commit) are, transaction by transaction, those of the
+   specification *)
+Theorem net_history_refines : forall txns st, static_ok st -> history_ok st txns ->
   exists os, net_history st txns = Some os /\ spec_history st txns = EV os.
 Proof.
-  induction txns as [|inj rest IH]; intros st Hok.
+  induction txns as [|inj rest IH]; intros st Hok Hh.
   - exists []. split; reflexivity.
-  - pose proof Hok as (Hfrag & Hnd & Hrefs & Hres & Hls & Hlz & Hac).
-    destruct (net_txn_refines st inj Hfrag Hnd Hrefs Hres Hac) as (fires & lg & E & _).
-    destruct (IH (net_commit st fires) (static_ok_commit st fires Hok)) as (os & E1 & E2).
+  - pose proof Hok as (Hfrag & Hnd & Hrefs & Hres & Hls & Hlz).
+    cbn [history_ok history_all] in Hh. destruct Hh as [[Hsw Hac] Hh].
+    destruct (net_txn_refines st inj Hfrag Hnd Hrefs Hres Hsw Hac) as (fires & lg & E & _).
+    rewrite E in Hh.
+    destruct (IH (net_commit st fires) (static_ok_commit st fires Hok) Hh) as (os & E1 & E2).
     exists (net_calls st fires :: os). cbn [net_history spec_history].
     rewrite E, E1. split; [reflexivity|].
-    rewrite (close_txn_refines st inj [] fires lg Hfrag Hnd Hrefs Hres Hls Hlz Hac E).
+    rewrite (close_txn_refines st inj [] fires lg Hfrag Hnd Hrefs Hres Hsw Hls Hlz Hac E).
     cbn [ebind r_state r_obs]. rewrite E2. reflexivity.
 Qed.
 Print Assumptions net_history_refines.
+
+(* without switch_s nothing has to be assumed of the later states (the theorem as it was for the static
+   combinational fragment, now with defer, split and value) *)
+Corollary net_history_refines_no_switch : forall txns st, static_ok st -> no_switch st = true -> acyclic st ->
+  exists os, net_history st txns = Some os /\ spec_history st txns = EV os.
+Proof.
+  intros txns st Hok Hns Hac. apply net_history_refines; [exact Hok|].
+  apply (history_all_inv wired_ok (fun s => no_switch s = true /\ wired_ok s)).
+  - intros s [_ H]; exact H.
+  - intros s inj fires lg [Hn Hw] _. split; [exact Hn | apply wired_ok_commit_no_switch; auto].
+  - split; [exact Hns|]. split; [apply no_switch_targets; exact Hns | exact Hac].
+Qed.
+Print Assumptions net_history_refines_no_switch.
+
+(* ------------------------------------------------------------------ the deferred queue *)
+Definition of_opt {A} (o : option A) : ev A := match o with Some a => EV a | None => EErr Illegal end.
+
+(* W holds of every state in which a deferred transaction is run (for these scheduling choices) *)
+Fixpoint deferred_all (W : state -> Prop) (fuel : nat) (choice : list nat) (st : state) (q : list ditem) : Prop :=
+  match fuel with
+  | O => True
+  | S f =>
+    match heads [] q with
+    | [] => True
+    | hs =>
+      let k := match choice with c :: _ => Nat.modulo c (length hs) | [] => O end in
+      let d := nth k hs (DPost 0 []) in
+      let q' := remove_first (source_of d) q in
+      match d with
+      | DEvent h v =>
+        W st /\ match net_txn st [(h, v)] with
+                | Some (fires, _) => deferred_all W f (tl choice) (net_commit st fires) (q' ++ net_deferred st fires)
+                | None => True
+                end
+      | DPost _ _ => deferred_all W f (tl choice) st q'
+      end
+    end
+  end.
+
+(* ... and of the state in which the transaction of the sends is run *)
+Definition outer_all (W : state -> Prop) (choice : list nat) (st : state) (inj : list (nat * val))
+           (ps : list (nat * list nat)) : Prop :=
+  W st /\ match net_txn st inj with
+          | Some (fires, _) =>
+            deferred_all W 200 choice (net_commit st fires)
+                         (net_deferred st fires ++ map (fun p => DPost (fst p) (snd p)) ps)
+          | None => True
+          end.
+Definition outer_ok (choice : list nat) (st : state) : Prop := outer_all wired_ok choice st (sends st) (posts st).
+
+Lemma deferred_all_impl (W W' : state -> Prop) : (forall st, W st -> W' st) ->
+  forall fuel choice st q, deferred_all W fuel choice st q -> deferred_all W' fuel choice st q.
+Proof.
+  intros Imp. induction fuel as [|f IH]; intros choice st q H; [exact Logic.I|].
+  cbn [deferred_all] in *. destruct (heads [] q) as [|d0 hs0]; [exact Logic.I|].
+  cbv zeta in *. destruct (nth _ (d0 :: hs0) (DPost 0 [])) as [h v|kk cs].
+  - destruct H as [Hw H]. split; [apply Imp; exact Hw|].
+    destruct (net_txn st [(h, v)]) as [[fires lg]|]; [apply IH; exact H | exact Logic.I].
+  - apply IH; exact H.
+Qed.
+
+Lemma deferred_all_inv (W P : state -> Prop) :
+  (forall st, P st -> W st) ->
+  (forall st inj fires lg, P st -> net_txn st inj = Some (fires, lg) -> P (net_commit st fires)) ->
+  forall fuel choice st q, P st -> deferred_all W fuel choice st q.
+Proof.
+  intros PW Pc. induction fuel as [|f IH]; intros choice st q Hp; [exact Logic.I|].
+  cbn [deferred_all]. destruct (heads [] q) as [|d0 hs0]; [exact Logic.I|].
+  cbv zeta. destruct (nth _ (d0 :: hs0) (DPost 0 [])) as [h v|kk cs].
+  - split; [apply PW; exact Hp|].
+    destruct (net_txn st [(h, v)]) as [[fires lg]|] eqn:E; [|exact Logic.I]. apply IH. eapply Pc; eauto.
+  - apply IH; exact Hp.
+Qed.
+
+Lemma outer_all_impl (W W' : state -> Prop) : (forall st, W st -> W' st) ->
+  forall choice st inj ps, outer_all W choice st inj ps -> outer_all W' choice st inj ps.
+Proof.
+  intros Imp choice st inj ps [Hw H]. split; [apply Imp; exact Hw|].
+  destruct (net_txn st inj) as [[fires lg]|]; [|exact Logic.I]. eapply deferred_all_impl; eauto.
+Qed.
+
+Lemma outer_all_inv (W P : state -> Prop) :
+  (forall st, P st -> W st) ->
+  (forall st inj fires lg, P st -> net_txn st inj = Some (fires, lg) -> P (net_commit st fires)) ->
+  forall choice st inj ps, P st -> outer_all W choice st inj ps.
+Proof.
+  intros PW Pc choice st inj ps Hp. split; [apply PW; exact Hp|].
+  destruct (net_txn st inj) as [[fires lg]|] eqn:E; [|exact Logic.I].
+  apply (deferred_all_inv W P PW Pc). eapply Pc; eauto.
+Qed.
+
+(* the post closures in the queue sample cells *)
+Definition queue_ok (st : state) (q : list ditem) : Prop :=
+  forall k cs, In (DPost k cs) q -> forallb (is_cell_key st) cs = true.
+
+Lemma heads_incl q : forall seen d, In d (heads seen q) -> In d q.
+Proof.
+  induction q as [|x t IH]; intros seen d H; [contradiction|]. cbn [heads] in H.
+  destruct (amem seen (source_of x)); [right; eapply IH; eauto|].
+  destruct H as [<-|H]; [left; reflexivity | right; eapply IH; eauto].
+Qed.
+
+Lemma remove_first_incl src q : forall d, In d (remove_first src q) -> In d q.
+Proof.
+  induction q as [|x t IH]; intros d H; [contradiction|]. cbn [remove_first] in H.
+  destruct (Nat.eqb (source_of x) src); [right; exact H|].
+  destruct H as [<-|H]; [left; reflexivity | right; apply IH; exact H].
+Qed.
+
+Lemma nth_mod_in (hs : list ditem) (choice : list nat) : hs <> [] ->
+  In (nth (match choice with c :: _ => Nat.modulo c (length hs) | [] => O end) hs (DPost 0 [])) hs.
+Proof.
+  intros NE. apply nth_In. destruct hs as [|x t]; [contradiction|].
+  destruct choice as [|c cs]; [cbn [length]; lia|]. apply Nat.mod_upper_bound. discriminate.
+Qed.
+
+Lemma queue_ok_commit st fires q : queue_ok st q -> queue_ok (net_commit st fires) q.
+Proof. intros H k cs Hin. exact (H k cs Hin). Qed.
+
+Lemma net_deferred_events st fires k cs : ~ In (DPost k cs) (net_deferred st fires).
+Proof.
+  unfold net_deferred. intros H. apply in_concat in H as (l & Hl & H).
+  apply in_map_iff in Hl as ([k' d] & <- & _). cbn [fst snd] in H.
+  destruct d; try contradiction.
+  - destruct (fire_of fires s); [destruct H as [H|[]]; discriminate | contradiction].
+  - destruct (fire_of fires s) as [v|]; [|contradiction].
+    destruct v; try (destruct H as [H|[]]; discriminate).
+    apply in_map_iff in H as (x & H & _). discriminate.
+Qed.
+
+(* the deferred queue: every item in a transaction of its own, run by the engine on the graph compiled
+   from the state the previous one committed *)
+Lemma net_run_deferred_refines : forall fuel choice st q acc,
+  static_ok st -> queue_ok st q -> deferred_all wired_ok fuel choice st q ->
+  run_deferred fuel choice st q acc = of_opt (net_run_deferred fuel choice st q acc).
+Proof.
+  induction fuel as [|f IH]; intros choice st q acc Hok Hq Hd; [reflexivity|].
+  cbn [run_deferred net_run_deferred deferred_all] in *.
+  destruct (heads [] q) as [|d0 hs0] eqn:Hh; [reflexivity|].
+  cbv zeta in *.
+  pose proof (nth_mod_in (d0 :: hs0) choice ltac:(discriminate)) as Hin.
+  rewrite <- Hh in Hin at 2. apply heads_incl in Hin.
+  destruct (nth _ (d0 :: hs0) (DPost 0 [])) as [h v|kk cs] eqn:Ed.
+  - (* a deferred event *)
+    destruct Hd as [[Hsw Hac] Hd].
+    pose proof Hok as (Hfrag & Hnd & Hrefs & Hres & Hls & Hlz).
+    destruct (net_txn_refines st [(h, v)] Hfrag Hnd Hrefs Hres Hsw Hac) as (fires & lg & E & _).
+    rewrite E in Hd |- *.
+    rewrite (close_txn_refines st [(h, v)] [] fires lg Hfrag Hnd Hrefs Hres Hsw Hls Hlz Hac E).
+    cbn [ebind r_state r_obs r_deferred map]. rewrite app_nil_r.
+    rewrite (IH (tl choice) (net_commit st fires) _ _ (static_ok_commit st fires Hok)); [| |exact Hd].
+    + destruct (net_run_deferred f (tl choice) (net_commit st fires) _ _) as [rest|]; reflexivity.
+    + intros k cs Hk. apply in_app_or in Hk as [Hk|Hk].
+      * apply remove_first_incl in Hk. exact (Hq k cs Hk).
+      * exfalso. exact (net_deferred_events st fires k cs Hk).
+  - (* a post closure: samples its cells *)
+    destruct Hok as (Hfrag & Hnd & Hrefs & Hres & Hls & Hlz).
+    rewrite (emap_cur st Hres cs (Hq kk cs Hin)). cbn [ebind].
+    rewrite (IH (tl choice) st _ _ (conj Hfrag (conj Hnd (conj Hrefs (conj Hres (conj Hls Hlz)))))); [| |exact Hd].
+    + destruct (net_run_deferred f (tl choice) st _ _) as [rest|]; reflexivity.
+    + intros k cs' Hk. apply remove_first_incl in Hk. exact (Hq k cs' Hk).
+Qed.
+
+Lemma net_run_deferred_static : forall fuel choice st q acc r,
+  static_ok st -> net_run_deferred fuel choice st q acc = Some r -> static_ok (fst (fst r)).
+Proof.
+  induction fuel as [|f IH]; intros choice st q acc r Hok E; [discriminate|].
+  cbn [net_run_deferred] in E. destruct (heads [] q) as [|d0 hs0]; [injection E as <-; exact Hok|].
+  cbv zeta in E. destruct (nth _ (d0 :: hs0) (DPost 0 [])) as [h v|kk cs].
+  - destruct (net_txn st [(h, v)]) as [[fires lg]|]; [|discriminate].
+    destruct (net_run_deferred f (tl choice) (net_commit st fires) _ _) as [rest|] eqn:Er; [|discriminate].
+    injection E as <-. cbn [fst]. eapply IH; [|exact Er]. apply static_ok_commit; exact Hok.
+  - destruct (net_run_deferred f (tl choice) st _ _) as [rest|] eqn:Er; [|discriminate].
+    injection E as <-. cbn [fst]. eapply IH; [|exact Er]. exact Hok.
+Qed.
+
+(* an outermost close: the transaction of the sends, then the deferred queue in the order given by the
+   scheduling choices: same final state, same observations (listener calls and post closures, in order),
+   same numbers of alternatives; out of fuel exactly when the specification is *)
+Theorem net_end_outer_with_refines choice st inj ps :
+  static_ok st -> posts_ok st ps = true -> outer_all wired_ok choice st inj ps ->
+  spec_end_outer_with choice st inj ps = of_opt (net_end_outer_with choice st inj ps).
+Proof.
+  intros Hok Hps [[Hsw Hac] Hd].
+  pose proof Hok as (Hfrag & Hnd & Hrefs & Hres & Hls & Hlz).
+  destruct (net_txn_refines st inj Hfrag Hnd Hrefs Hres Hsw Hac) as (fires & lg & E & _).
+  unfold spec_end_outer_with, net_end_outer_with. rewrite E in Hd |- *.
+  rewrite (close_txn_refines st inj ps fires lg Hfrag Hnd Hrefs Hres Hsw Hls Hlz Hac E).
+  cbn [ebind r_state r_obs r_deferred].
+  apply net_run_deferred_refines; [apply static_ok_commit; exact Hok | | exact Hd].
+  intros k cs Hk. apply in_app_or in Hk as [Hk|Hk].
+  - exfalso. exact (net_deferred_events st fires k cs Hk).
+  - apply in_map_iff in Hk as ([k' cs'] & Ek & Hk). cbn [fst snd] in Ek. injection Ek as -> ->.
+    unfold posts_ok in Hps. rewrite forallb_forall in Hps. exact (Hps _ Hk).
+Qed.
+Print Assumptions net_end_outer_with_refines.
+
+Corollary net_end_outer_refines choice st :
+  static_ok st -> posts_ok st (posts st) = true -> outer_ok choice st ->
+  end_outer choice st = of_opt (net_end_outer choice st).
+Proof. intros Hok Hps Ho. rewrite end_outer_with_eq. apply net_end_outer_with_refines; assumption. Qed.
+Print Assumptions net_end_outer_refines.
+
+Lemma net_end_outer_with_static choice st inj ps r :
+  static_ok st -> net_end_outer_with choice st inj ps = Some r -> static_ok (fst (fst r)).
+Proof.
+  intros Hok E. unfold net_end_outer_with in E. destruct (net_txn st inj) as [[fires lg]|]; [|discriminate].
+  eapply net_run_deferred_static; [|exact E]. apply static_ok_commit; exact Hok.
+Qed.
+
+(* histories of outermost transactions *)
+Fixpoint outer_history_all (W : state -> Prop) (st : state) (txns : list otxn) : Prop :=
+  match txns with
+  | [] => True
+  | (inj, ps, ch) :: rest =>
+    posts_ok st ps = true /\ outer_all W ch st inj ps /\
+    match net_end_outer_with ch st inj ps with
+    | Some r => outer_history_all W (fst (fst r)) rest
+    | None => True
+    end
+  end.
+Definition outer_history_ok : state -> list otxn -> Prop := outer_history_all wired_ok.
+
+Lemma outer_history_all_impl (W W' : state -> Prop) : (forall st, W st -> W' st) ->
+  forall txns st, outer_history_all W st txns -> outer_history_all W' st txns.
+Proof.
+  intros Imp. induction txns as [|[[inj ps] ch] rest IH]; intros st H; [exact Logic.I|].
+  cbn [outer_history_all] in *. destruct H as (Hp & Ho & H). split; [exact Hp|].
+  split; [eapply outer_all_impl; eauto|].
+  destruct (net_end_outer_with ch st inj ps) as [r|]; [apply IH; exact H | exact Logic.I].
+Qed.
+
+Theorem net_outer_history_refines : forall txns st, static_ok st -> outer_history_ok st txns ->
+  spec_outer_history st txns = of_opt (net_outer_history st txns).
+Proof.
+  induction txns as [|[[inj ps] ch] rest IH]; intros st Hok Hh; [reflexivity|].
+  cbn [outer_history_ok outer_history_all] in Hh. destruct Hh as (Hp & Ho & Hh).
+  cbn [spec_outer_history net_outer_history].
+  rewrite (net_end_outer_with_refines ch st inj ps Hok Hp Ho).
+  destruct (net_end_outer_with ch st inj ps) as [r|] eqn:E; [|reflexivity].
+  cbn [of_opt ebind]. rewrite (IH (fst (fst r)) (net_end_outer_with_static ch st inj ps r Hok E) Hh).
+  destruct (net_outer_history (fst (fst r)) rest) as [os|]; reflexivity.
+Qed.
+Print Assumptions net_outer_history_refines.
+
+(* without switch_s: every choice list, nothing assumed of the states reached *)
+Corollary net_end_outer_refines_no_switch choice st :
+  static_ok st -> posts_ok st (posts st) = true -> no_switch st = true -> acyclic st ->
+  end_outer choice st = of_opt (net_end_outer choice st).
+Proof.
+  intros Hok Hps Hns Hac. apply net_end_outer_refines; [exact Hok | exact Hps |].
+  apply (outer_all_inv wired_ok (fun s => no_switch s = true /\ wired_ok s)).
+  - intros s [_ H]; exact H.
+  - intros s inj fires lg [Hn Hw] _. split; [exact Hn | apply wired_ok_commit_no_switch; auto].
+  - split; [exact Hns|]. split; [apply no_switch_targets; exact Hns | exact Hac].
+Qed.
+Print Assumptions net_end_outer_refines_no_switch.
+
+(* the same with an invariant of the commits in place of the run-dependent predicates: every history,
+   every list of scheduling choices *)
+Corollary net_history_refines_inv (P : state -> Prop) :
+  (forall st, P st -> wired_ok st) ->
+  (forall st inj fires lg, P st -> net_txn st inj = Some (fires, lg) -> P (net_commit st fires)) ->
+  forall txns st, static_ok st -> P st ->
+  exists os, net_history st txns = Some os /\ spec_history st txns = EV os.
+Proof.
+  intros PW Pc txns st Hok Hp. apply net_history_refines; [exact Hok|].
+  apply (history_all_inv wired_ok P PW Pc). exact Hp.
+Qed.
+Print Assumptions net_history_refines_inv.
+
+Corollary net_end_outer_refines_inv (P : state -> Prop) :
+  (forall st, P st -> wired_ok st) ->
+  (forall st inj fires lg, P st -> net_txn st inj = Some (fires, lg) -> P (net_commit st fires)) ->
+  forall choice st, static_ok st -> posts_ok st (posts st) = true -> P st ->
+  end_outer choice st = of_opt (net_end_outer choice st).
+Proof.
+  intros PW Pc choice st Hok Hps Hp. apply net_end_outer_refines; [exact Hok | exact Hps |].
+  apply (outer_all_inv wired_ok P PW Pc). exact Hp.
+Qed.
+Print Assumptions net_end_outer_refines_inv.
 
 (* ------------------------------------------------------------------ non-vacuity: a concrete program *)
 (* sinks 0 and 19; diamond 0 -> (1, 2) -> merge 3; hold 4; snapshot 5 of 0 with cell 4; constant 6;
    lift2 7 of cells 4 and 6; stream loop 8 closed over the snapshot 5 and held in 9; cell loop 10 closed
    over the lift 7, its updates 11; once 12; router 13 with route 14; gate 15; filter 16; map_c 17;
-   never 18; merge 20 of the diamond with the coalescing sink 19 *)
+   never 18; merge 20 of the diamond with the coalescing sink 19;
+   21 maps the sink to a reference to stream 1 (even values) or stream 2 (odd values), held in the
+   cell 22 (initially stream 1); 23 = switch_s of 22: it is RE-WIRED between 1 and 2 by the transactions
+   below; 24 = defer of the switch's output; 25 maps the sink to a two-element list, 26 = its split;
+   27 = value() of the hold 4 and 30 = value() of the constant 6, both created in the first transaction
+   (fresh); 28 merges the deferred streams and is held in 29 (a cell changed by deferred transactions) *)
 Definition ex_defs : list (nat * def) :=
   [ (0, DSink None); (1, DMap 0 (FAdd 1)); (2, DMap 0 (FMul 2)); (3, DMerge 1 2 GAdd);
     (4, DHold 3); (5, DSnapshot 0 [4] (NF2 GPair)); (6, DConst); (7, DLift [4; 6] (NF2 GAdd));
     (8, DSLoop); (9, DHold 8); (10, DCLoop); (11, DUpdates 10); (12, DOnce 0);
     (13, DRouter 0 (SMod 2)); (14, DRoute 13 1); (15, DGate 3 6); (16, DFilter 3 PEven);
-    (17, DMapC 7 (FMul 3)); (18, DNever); (19, DSink (Some GAdd)); (20, DMerge 3 19 GMul10) ].
+    (17, DMapC 7 (FMul 3)); (18, DNever); (19, DSink (Some GAdd)); (20, DMerge 3 19 GMul10);
+    (21, DMap 0 (FSel [1; 2])); (22, DHold 21); (23, DSwitchS 22); (24, DDefer 23);
+    (25, DMap 0 (FToList 2)); (26, DSplit 25); (27, DValue 4); (28, DMerge 24 26 GAdd); (29, DHold 28);
+    (30, DValue 6) ].
 Definition ex_st : state :=
   mkState ex_defs
-          [(4, VInt 0); (6, VInt 10); (7, VInt 10); (9, VUnit); (10, VInt 10); (17, VInt 30)] [] [] [] []
-          [(8, 5); (10, 7)] [(0, 3); (1, 5); (2, 11); (3, 12); (4, 20)] 0 [] [] [] [].
+          [(4, VInt 0); (6, VInt 10); (7, VInt 10); (9, VUnit); (10, VInt 10); (17, VInt 30);
+           (22, VRef 1); (29, VUnit)] [] [] [] [27; 30]
+          [(8, 5); (10, 7)]
+          [(0, 3); (1, 5); (2, 11); (3, 12); (4, 20); (5, 23); (6, 24); (7, 26); (8, 27); (9, 28); (10, 30)]
+          0 [] [] [] [].
 Definition ex_inj : list (nat * val) := [(19, VInt 100); (0, VInt 5); (19, VInt 1)].
-Definition ex_rank (n : nat) : nat := nth n [0; 1; 1; 2; 3; 1; 0; 4; 2; 3; 5; 6; 1; 1; 1; 3; 3; 5; 0; 0; 3] 0.
+(* one rank for both wirings of the switch: above streams 1 and 2 and above the outer cell 22 *)
+Definition ex_rank (n : nat) : nat :=
+  nth n [0; 1; 1; 2; 3; 1; 0; 4; 2; 3; 5; 6; 1; 1; 1; 3; 3; 5; 0; 0; 3; 1; 2; 3; 0; 1; 0; 4; 1; 2; 1] 0.
+
+Example ex_wired_ok : wired_ok ex_st.
+Proof. apply (wired_okb_ok ex_rank). vm_compute. reflexivity. Qed.
 
 Example ex_acyclic : acyclic ex_st.
-Proof.
-  exists ex_rank. intros n d.
-  do 21 (destruct n as [|n]; [cbn; intros H; repeat (destruct H as [<-|H]; [cbn; lia|]); destruct H|]).
-  cbn. intros [].
-Qed.
+Proof. exact (proj2 ex_wired_ok). Qed.
 
 Example ex_static_ok : static_ok ex_st.
 Proof.
   split; [reflexivity|]. split; [apply nodupb_spec; reflexivity|].
-  split; [reflexivity|]. split; [reflexivity|]. split; [reflexivity|]. split; [reflexivity|].
-  exact ex_acyclic.
+  split; [reflexivity|]. split; [reflexivity|]. split; reflexivity.
 Qed.
 
-(* the engine's run of the transaction, evaluated: final firing of every node and the update log *)
+(* the engine's run of the transaction, evaluated: final firing of every definition's node, the sparks
+   that fired (nodes 31 + 27 and 31 + 30), and the update log *)
 Example ex_net_txn :
-  net_txn ex_st ex_inj =
+  option_map (fun r => (firstn 31 (fst r), filter (fun n => is_some (fire_of (fst r) n)) (seq 31 31), snd r))
+             (net_txn ex_st ex_inj) =
   Some ([Some (VInt 5); Some (VInt 6); Some (VInt 10); Some (VInt 16); Some (VInt 16);
          Some (VPair (VInt 5) (VInt 0)); None; Some (VInt 26); Some (VPair (VInt 5) (VInt 0));
          Some (VPair (VInt 5) (VInt 0)); Some (VInt 26); Some (VInt 26); Some (VInt 5); Some (VInt 5);
          Some (VInt 5); Some (VInt 16); Some (VInt 16); Some (VInt 78); None; Some (VInt 101);
-         Some (VInt 261)],
-        [1; 2; 3; 4; 7; 10; 11; 17; 15; 16; 20; 5; 8; 9; 12; 13; 14]).
+         Some (VInt 261); Some (VRef 2); Some (VRef 2); Some (VInt 6); None;
+         Some (VList [VInt 5; VInt 6]); None; Some (VInt 16); None; None; Some (VInt 10)],
+        [58; 61],
+        [1; 2; 3; 4; 7; 10; 11; 17; 27; 15; 16; 20; 21; 22; 23; 5; 8; 9; 12; 13; 14; 25; 30]).
 Proof. vm_compute. reflexivity. Qed.
 
 (* the theorem applies to it ... *)
 Example ex_refines :
   exists fires lg,
     net_txn ex_st ex_inj = Some (fires, lg) /\
-    length fires = nsize ex_st /\
+    length fires = gsize ex_st /\
     (forall s d, alookup (defs ex_st) s = Some d -> is_cell d = false ->
                  occ ex_st ex_inj (F ex_st) s = EV (fire_of fires s)) /\
     (forall c d, alookup (defs ex_st) c = Some d -> is_cell d = true ->
                  upd ex_st ex_inj (F ex_st) c = EV (fire_of fires c)) /\
     updates_once_after_deps ex_st fires lg.
 Proof.
-  destruct ex_static_ok as (A & B & C & D & _ & _ & E). exact (net_txn_refines ex_st ex_inj A B C D E).
+  destruct ex_static_ok as (A & B & C & D & _ & _). destruct ex_wired_ok as (E & G).
+  exact (net_txn_refines ex_st ex_inj A B C D E G).
 Qed.
 
-(* ... the specification evaluated on the same transaction gives the same values ... *)
+(* ... the specification evaluated on the same transaction gives the same values (23, the switch, fires
+   stream 1's value 6; 27, the value() of the updated hold, fires the update 16; 30, the value() of the
+   constant, fires its current value 10) ... *)
 Example ex_spec_eval :
   map (fun kd : nat * def => if is_cell (snd kd) then upd ex_st ex_inj (F ex_st) (fst kd)
                              else occ ex_st ex_inj (F ex_st) (fst kd)) ex_defs =
@@ -767,10 +1257,11 @@ Example ex_spec_eval :
        Some (VPair (VInt 5) (VInt 0)); None; Some (VInt 26); Some (VPair (VInt 5) (VInt 0));
        Some (VPair (VInt 5) (VInt 0)); Some (VInt 26); Some (VInt 26); Some (VInt 5); Some (VInt 5);
        Some (VInt 5); Some (VInt 16); Some (VInt 16); Some (VInt 78); None; Some (VInt 101);
-       Some (VInt 261)].
+       Some (VInt 261); Some (VRef 2); Some (VRef 2); Some (VInt 6); None;
+       Some (VList [VInt 5; VInt 6]); None; Some (VInt 16); None; None; Some (VInt 10)].
 Proof. vm_compute. reflexivity. Qed.
 
-(* ... another registration order of the dependents and another order of the sends: same firings *)
+(* ... another registration order of the dependents and another order of the sources: same firings *)
 Definition rev_dependents (gr : graph val) : graph val :=
   map (fun x => {| deps := deps x; dependents := rev (dependents x); visited := visited x; done := done x;
                    changed := changed x; fire := fire x |}) gr.
@@ -778,29 +1269,131 @@ Example ex_other_order :
   option_map fst (net_run ex_st (rev_dependents (compile ex_st)) (rev (net_sources ex_st ex_inj))) =
   option_map fst (net_txn ex_st ex_inj) /\
   option_map snd (net_run ex_st (rev_dependents (compile ex_st)) (rev (net_sources ex_st ex_inj))) =
-  Some [1; 2; 3; 20; 14; 13; 12; 5; 8; 9; 16; 15; 4; 7; 17; 10; 11].
+  Some [30; 1; 2; 3; 4; 27; 20; 25; 21; 22; 23; 14; 13; 12; 5; 8; 9; 16; 15; 7; 17; 10; 11].
 Proof. vm_compute. split; reflexivity. Qed.
 
-(* ... and a history of four transactions: listener calls of the engine model = of the specification *)
+(* ... a history of four transactions.  The first (send 5) makes the outer cell 22 refer to stream 2, the
+   second (send 6) back to stream 1: listener 5 (of the switch 23) gets 5 + 1 from stream 1, then 6 * 2
+   from stream 2, then 8 + 1 from stream 1 *)
 Definition ex_txns : list (list (nat * val)) :=
   [ex_inj; [(0, VInt 6)]; []; [(0, VInt 7); (19, VInt 2); (0, VInt 8)]].
+
+(* the wiring invariant along the history, checked by evaluation with the one rank *)
+Example ex_history_ok : history_ok ex_st ex_txns.
+Proof.
+  apply (history_all_impl (fun st => wired_okb ex_rank st = true) wired_ok (wired_okb_ok ex_rank)).
+  vm_compute. repeat split.
+Qed.
+
 Example ex_history :
   net_history ex_st ex_txns =
-  Some [[BCall 4 (VInt 261); BCall 3 (VInt 5); BCall 2 (VInt 26); BCall 1 (VPair (VInt 5) (VInt 0)); BCall 0 (VInt 16)];
-        [BCall 4 (VInt 19); BCall 2 (VInt 29); BCall 1 (VPair (VInt 6) (VInt 16)); BCall 0 (VInt 19)];
+  Some [[BCall 10 (VInt 10); BCall 8 (VInt 16); BCall 5 (VInt 6); BCall 4 (VInt 261); BCall 3 (VInt 5);
+         BCall 2 (VInt 26); BCall 1 (VPair (VInt 5) (VInt 0)); BCall 0 (VInt 16)];
+        [BCall 8 (VInt 19); BCall 5 (VInt 12); BCall 4 (VInt 19); BCall 2 (VInt 29);
+         BCall 1 (VPair (VInt 6) (VInt 16)); BCall 0 (VInt 19)];
         [];
-        [BCall 4 (VInt 252); BCall 2 (VInt 35); BCall 1 (VPair (VInt 8) (VInt 19)); BCall 0 (VInt 25)]] /\
+        [BCall 8 (VInt 25); BCall 5 (VInt 9); BCall 4 (VInt 252); BCall 2 (VInt 35);
+         BCall 1 (VPair (VInt 8) (VInt 19)); BCall 0 (VInt 25)]] /\
   spec_history ex_st ex_txns =
-  EV   [[BCall 4 (VInt 261); BCall 3 (VInt 5); BCall 2 (VInt 26); BCall 1 (VPair (VInt 5) (VInt 0)); BCall 0 (VInt 16)];
-        [BCall 4 (VInt 19); BCall 2 (VInt 29); BCall 1 (VPair (VInt 6) (VInt 16)); BCall 0 (VInt 19)];
+  EV   [[BCall 10 (VInt 10); BCall 8 (VInt 16); BCall 5 (VInt 6); BCall 4 (VInt 261); BCall 3 (VInt 5);
+         BCall 2 (VInt 26); BCall 1 (VPair (VInt 5) (VInt 0)); BCall 0 (VInt 16)];
+        [BCall 8 (VInt 19); BCall 5 (VInt 12); BCall 4 (VInt 19); BCall 2 (VInt 29);
+         BCall 1 (VPair (VInt 6) (VInt 16)); BCall 0 (VInt 19)];
         [];
-        [BCall 4 (VInt 252); BCall 2 (VInt 35); BCall 1 (VPair (VInt 8) (VInt 19)); BCall 0 (VInt 25)]].
+        [BCall 8 (VInt 25); BCall 5 (VInt 9); BCall 4 (VInt 252); BCall 2 (VInt 35);
+         BCall 1 (VPair (VInt 8) (VInt 19)); BCall 0 (VInt 25)]].
 Proof. vm_compute. split; reflexivity. Qed.
+
+(* the switch was re-wired: its dependencies in the four states of the history *)
+Example ex_rewired :
+  match net_txn ex_st ex_inj with
+  | Some (f1, _) =>
+    let st1 := net_commit ex_st f1 in
+    match net_txn st1 [(0, VInt 6)] with
+    | Some (f2, _) => (ndeps ex_st 23, ndeps st1 23, ndeps (net_commit st1 f2) 23)
+    | None => ([], [], [])
+    end
+  | None => ([], [], [])
+  end = ([1; 22], [2; 22], [1; 22]).
+Proof. vm_compute. reflexivity. Qed.
 
 Example ex_history_thm :
   exists os, net_history ex_st ex_txns = Some os /\ spec_history ex_st ex_txns = EV os.
-Proof. exact (net_history_refines ex_txns ex_st ex_static_ok). Qed.
+Proof. exact (net_history_refines ex_txns ex_st ex_static_ok ex_history_ok). Qed.
+
+(* ... and a history of four OUTERMOST transactions with their deferred queues (defer 24 of the switch,
+   split 26 of the two-element lists), user post closures 7 and 8, and scheduling choices *)
+Definition ex_otxns : list otxn :=
+  [ (ex_inj, [(7, [4; 22])], [0]); ([(0, VInt 6)], [], [1; 1; 0]); ([], [(8, [29])], []);
+    ([(0, VInt 7); (19, VInt 2); (0, VInt 8)], [], [2; 0; 1]) ].
+
+Example ex_outer_history_ok : outer_history_ok ex_st ex_otxns.
+Proof.
+  apply (outer_history_all_impl (fun st => wired_okb ex_rank st = true) wired_ok (wired_okb_ok ex_rank)).
+  vm_compute. repeat split.
+Qed.
+
+Example ex_outer_history :
+  net_outer_history ex_st ex_otxns =
+  Some [[BCall 10 (VInt 10); BCall 8 (VInt 16); BCall 5 (VInt 6); BCall 4 (VInt 261); BCall 3 (VInt 5);
+         BCall 2 (VInt 26); BCall 1 (VPair (VInt 5) (VInt 0)); BCall 0 (VInt 16);
+         BCall 9 (VInt 5); BCall 7 (VInt 5); BCall 9 (VInt 6); BCall 7 (VInt 6); BCall 9 (VInt 6);
+         BCall 6 (VInt 6); BPost 7 [VInt 16; VRef 2]];
+        [BCall 8 (VInt 19); BCall 5 (VInt 12); BCall 4 (VInt 19); BCall 2 (VInt 29);
+         BCall 1 (VPair (VInt 6) (VInt 16)); BCall 0 (VInt 19);
+         BCall 9 (VInt 12); BCall 6 (VInt 12); BCall 9 (VInt 6); BCall 7 (VInt 6); BCall 9 (VInt 7);
+         BCall 7 (VInt 7)];
+        [BPost 8 [VInt 7]];
+        [BCall 8 (VInt 25); BCall 5 (VInt 9); BCall 4 (VInt 252); BCall 2 (VInt 35);
+         BCall 1 (VPair (VInt 8) (VInt 19)); BCall 0 (VInt 25);
+         BCall 9 (VInt 8); BCall 7 (VInt 8); BCall 9 (VInt 9); BCall 7 (VInt 9); BCall 9 (VInt 9);
+         BCall 6 (VInt 9)]] /\
+  spec_outer_history ex_st ex_otxns = of_opt (net_outer_history ex_st ex_otxns).
+Proof. vm_compute. split; reflexivity. Qed.
+
+Example ex_outer_history_thm :
+  spec_outer_history ex_st ex_otxns = of_opt (net_outer_history ex_st ex_otxns).
+Proof. exact (net_outer_history_refines ex_otxns ex_st ex_static_ok ex_outer_history_ok). Qed.
 
 Print Assumptions ex_static_ok.
 Print Assumptions ex_refines.
 Print Assumptions ex_history_thm.
+Print Assumptions ex_outer_history_thm.
+
+(* ------------------------------------------------------------------ the acyclicity hypothesis is needed *)
+(* A switch_s whose outer cell is fed, within the same transaction, by the switch's own output: outer
+   cell 3 = hold (2 = map of the switch 4's output to a stream reference), 4 = switch_s 3, currently on
+   the sink 0.  Every other hypothesis holds; the graph has the cycle 4 -> 3 -> 2 -> 4 (the inner node
+   depends on the outer node, /repo/src/impl_/cell.rs `node1.add_dependency(node2)`).  The specification
+   (whose `occ (DSwitchS c)` does not read `upd c`) lets the switch fire 5, then 2 fire `VRef 1` and the
+   outer cell take it.  The engine reaches node 2 and 3 while 4 is still being visited, finds nothing
+   fired, and never comes back: the switch fires 5 but the outer cell is NOT updated.  This is the
+   implementation's cyclic-outer-cell defect; `acyclic` excludes exactly such states. *)
+Definition cy_defs : list (nat * def) :=
+  [ (0, DSink None); (1, DMap 0 (FAdd 1)); (2, DMap 4 (FSel [0; 1])); (3, DHold 2); (4, DSwitchS 3) ].
+Definition cy_st : state := mkState cy_defs [(3, VRef 0)] [] [] [] [] [] [(0, 4)] 0 [] [] [] [].
+
+Example cy_disagree :
+  static_ok cy_st /\ switch_targets_ok cy_st = true /\
+  map (ndeps cy_st) [2; 3; 4] = [[4]; [2]; [0; 3]] /\
+  map (fun kd : nat * def => if is_cell (snd kd) then upd cy_st [(0, VInt 5)] (F cy_st) (fst kd)
+                             else occ cy_st [(0, VInt 5)] (F cy_st) (fst kd)) cy_defs =
+  map (@EV (option val)) [Some (VInt 5); Some (VInt 6); Some (VRef 1); Some (VRef 1); Some (VInt 5)] /\
+  option_map (fun r => (firstn 5 (fst r), snd r)) (net_txn cy_st [(0, VInt 5)]) =
+  Some ([Some (VInt 5); Some (VInt 6); None; None; Some (VInt 5)], [1; 4]).
+Proof.
+  split.
+  { split; [reflexivity|]. split; [apply nodupb_spec; reflexivity|].
+    split; [reflexivity|]. split; [reflexivity|]. split; reflexivity. }
+  vm_compute. repeat split.
+Qed.
+
+Example cy_not_acyclic : ~ acyclic cy_st.
+Proof.
+  intros [rank RK].
+  assert (A : rank 3 < rank 4) by (apply RK; vm_compute; auto).
+  assert (B : rank 2 < rank 3) by (apply RK; vm_compute; auto).
+  assert (C : rank 4 < rank 2) by (apply RK; vm_compute; auto).
+  lia.
+Qed.
+Print Assumptions cy_disagree.
